@@ -7,6 +7,7 @@ UNITS = {
     "v5props": dict(verify=["v5types.vc", "v5props.vc"], trusted=["common.vc", "topic.vc"], spec=["props5.rs"], spec_import=["wire.rs", "wire5.rs"]),
     "v5pdec": dict(verify=["v5pdec.vc"], trusted=["common.vc", "topic.vc", "v5types.vc", "v5props.vc"], spec=[], spec_import=["wire.rs", "wire5.rs", "props5.rs"]),
     "v5acks": dict(verify=["v5acks.vc"], trusted=["common.vc", "topic.vc", "v5types.vc", "v5props.vc", "v5pdec.vc"], spec=[], spec_import=["wire.rs", "wire5.rs", "props5.rs"]),
+    "v5body": dict(verify=["v5codes.vc", "v5.vc"], trusted=["common.vc", "topic.vc", "v5types.vc", "v5props.vc", "v5pdec.vc"], spec=[], spec_import=["wire.rs", "wire5.rs", "props5.rs"]),
     "v3": dict(verify=["v3.vc"], trusted=["common.vc", "topic.vc"], spec=[], spec_import=["wire.rs"]),
 }
 
